@@ -15,6 +15,7 @@ import DDProofs.MddIteTotal
 import DDProofs.MddApplyTotal
 import DDProofs.MddGcSched
 import DDProofs.Reach2
+import DDProofs.PredNodesReach
 import DDProps.C07
 import DDProofs.Inv
 namespace DD
@@ -355,6 +356,42 @@ theorem C15_bddToMdd_held_total (ext : Nat → Nat) (mb : Mgr) (h : ReorderInv e
   exact ⟨out, mb', hr, B.mdd, B.bdd, fun s hsx =>
     C15_bddToMdd_held ext mb h dvars hd.toDvarsOK none out mb' hr s hsx⟩
 
+/-- the total forms of `ite` / `apply` apply to a converted MDD: `B2MOK` gives the invariant and
+`out.mdd.sched = []` -/
+theorem C15_converted_ite_total (ext : Nat → Nat) (dvars : List MVar) (mb : Mgr) (out : B2MOut)
+    (mb' : Mgr) (B : B2MOK ext dvars mb out mb') (g u v : Int)
+    (mg : out.mdd.tbl.Mem g) (mu : out.mdd.tbl.Mem u) (mv : out.mdd.tbl.Mem v) :
+    ∃ w m', mIte g u v out.mdd = (.ok w, m') ∧ MReach dvars m' (fun _ => 0) ∧ m'.tbl.Mem w ∧
+      (∀ a, MValid out.mdd.tbl a → denM m'.tbl w a =
+        if denM out.mdd.tbl g a then denM out.mdd.tbl u a else denM out.mdd.tbl v a) := by
+  obtain ⟨w, m', hr, _, _, hw, _, hden, _⟩ := C15_ite_total out.mdd B.mdd B.sched g u v mg mu mv
+  exact ⟨w, m', hr, MReach.ite g u v w m' B.reach hr, hw, hden⟩
+
+/-- C15, conversion, for every BDD manager REACHABLE by a guarded history of user operations
+(`reachable_inv`): the hypotheses `ReorderInv`, `KeysShaped` (`reachable_predShape`) and
+"no schedule left" of the totality theorems hold, so for a complete description `dvars` of the
+integer variables `bdd_to_mdd` returns normally and is correct -/
+theorem C15_bddToMdd_reachable (ops : List UOp) (hg : OpsGuarded ops St.init) (dvars : List MVar)
+    (hd : DvarsFull (run ops St.init).m.tbl dvars) :
+    ∃ out mb', bddToMdd dvars none (run ops St.init).m = (.ok out, mb') ∧
+      B2MOK (run ops St.init).ext dvars (run ops St.init).m out mb' ∧
+      KeysShaped mb' ∧ mb'.sched = [] := by
+  have good : Good2 (run ops St.init).m (run ops St.init).ext := by
+    have := reachable2_inv (ops.map .base) ((ops2Guarded_base ops St.init).mpr hg)
+    rw [run2_base] at this
+    exact this
+  have hs : (run ops St.init).m.sched = [] := good.sched
+  have rinv : ReorderInv (run ops St.init).ext (run ops St.init).m := by
+    have := good.reorderInv []
+    have e : ({ (run ops St.init).m with sched := [] } : Mgr) = (run ops St.init).m := by
+      cases hmb : (run ops St.init).m; simp_all
+    rw [e] at this; exact this
+  have hks : KeysShaped (run ops St.init).m := by
+    intro k u hku
+    obtain ⟨n, hn⟩ := reachable_predShape ops k u hku
+    exact ⟨n, hn.symm⟩
+  exact bddToMdd_total _ _ rinv hks hs dvars hd
+
 /-- a held BDD reference of either sign denotes the same function in a manager that keeps the
 held nodes' functions -/
 theorem denN_held_signed (ext : Nat → Nat) (mb mb' : Mgr) (h : ReorderInv ext mb) (hI' : Inv mb')
@@ -570,14 +607,69 @@ example : ∃ (S : Int → MAsg → Bool) (L : Nat → Nat) (P : Mgr → Prop) (
 
 /-! ### every reachable state -/
 
-/-- every state reachable from `MDD(dvars)` by successful calls — `find_or_add` with successors
-below the level (documented precondition), `ite`/`apply` on nodes of the manager, `incref`,
-`decref` of a reference the user holds, `collect_garbage` with or without roots, in any order
-and for any recorded `_free.pop()` schedule — satisfies the invariant, and every stored count
-is exactly in-degree + number of references the user holds -/
+/-- every state reachable from `MDD(dvars)` by calls of the user — `find_or_add` with successors
+below the level (documented precondition), any `ite` that returns, `apply`, `incref`, `decref` of
+a reference the user holds, `collect_garbage` with or without roots, AND calls that raise, in any
+order — satisfies the invariant, and every stored count is exactly in-degree + number of
+references the user holds.  The allocating calls (`MReach.foaS/iteS/applyS`) run under an
+ARBITRARY recorded schedule of `_free.pop()` results, installed for the call and dropped
+afterwards, and every choice the real `set.pop()` can make is accepted by the model
+(`C15_allocate_acceptance`): the reachable set contains every run of the code, not only the
+least-element runs. -/
 theorem C15_reachable_inv (dv : List MVar) (m : MddMgr) (ext : Nat → Nat) (h : MReach dv m ext) :
     MInv m ∧ MRefExact m ext ∧ m.tbl.vars = dv :=
   h.inv
+
+/-- between calls no recorded schedule is left, and the keys of `_ref` are nodes -/
+theorem C15_reachable_sched (dv : List MVar) (m : MddMgr) (ext : Nat → Nat) (h : MReach dv m ext) :
+    m.sched = [] ∧ RefKeys m :=
+  ⟨h.sched_nil, h.refKeys⟩
+
+/-- ACCEPTANCE of recorded `_free.pop()` results.  `_allocate`:
+* with an empty `_free` takes `_max + 1` and does not consult the schedule;
+* with a recorded pop `p` that IS an element of `_free` takes `p`;
+* with nothing recorded takes the least element;
+* reports `MODEL-SCHEDULE-MISMATCH` only for a recorded pop that is NOT an element of `_free`, and
+  then changes nothing;
+so for EVERY element `p` of `_free` some schedule makes the model take `p`. -/
+theorem C15_allocate_acceptance (m : MddMgr) :
+    (m.free = [] → mAllocate m = (.ok (m.max + 1), { m with max := m.max + 1 })) ∧
+    (∀ p rest, m.sched = p :: rest → p ∈ m.free →
+      mAllocate m = (.ok p, { m with free := m.free.erase p, sched := rest })) ∧
+    (∀ f0 tl, m.free = f0 :: tl → m.sched = [] →
+      mAllocate m = (.ok f0, { m with free := m.free.erase f0 })) ∧
+    (∀ e m', mAllocate m = (.error e, m') →
+      m' = m ∧ e = .sched ∧ ∃ p rest, m.sched = p :: rest ∧ m.free ≠ [] ∧ p ∉ m.free) ∧
+    (∀ p, p ∈ m.free → ∃ sch, mAllocate { m with sched := sch } =
+      (.ok p, { m with free := m.free.erase p, sched := [] })) :=
+  ⟨(mAllocate_accepts m).1, (mAllocate_accepts m).2.1, (mAllocate_accepts m).2.2,
+   fun e m' h => mAllocate_err m e m' h, fun p hp => mAllocate_any_choice m p hp⟩
+
+/-- what a call that raises leaves, in a reachable state, for any recorded schedule `sch`:
+`find_or_add` (any arguments — its checks precede every mutation; under the invariant the
+allocator assertions cannot fire), `ite` (any operands: one that is not a node makes `level_of`
+raise `KeyError` before anything is created; with nodes as operands nothing can raise), `apply`,
+`incref`, `decref`, `collect_garbage` (any roots: one that is not counted makes `self.ref(u)` raise
+before the loop starts) leave the manager EXACTLY as it was.  (For `ite` / `apply` the model's own
+`MODEL-SCHEDULE-MISMATCH` is excluded: it is not a behaviour of the code.) -/
+theorem C15_failed_call_unchanged (dv : List MVar) (m : MddMgr) (ext : Nat → Nat) (h : MReach dv m ext)
+    (sch : List Nat) (e : Err) (m1 : MddMgr) :
+    (∀ i nodes, mFindOrAdd i nodes { m with sched := sch } = (.error e, m1) →
+      ({ m1 with sched := [] } : MddMgr) = m) ∧
+    (∀ g u v, mIte g u v { m with sched := sch } = (.error e, m1) → e ≠ .sched →
+      ({ m1 with sched := [] } : MddMgr) = m) ∧
+    (∀ op u v w, mApply op u v w { m with sched := sch } = (.error e, m1) → e ≠ .sched →
+      ({ m1 with sched := [] } : MddMgr) = m) ∧
+    (∀ u, mIncref u m = (.error e, m1) → m1 = m) ∧
+    (∀ u, mDecref u m = (.error e, m1) → m1 = m) ∧
+    (∀ roots, mCollectGarbage roots m = (.error e, m1) → m1 = m) :=
+  h.failed_unchanged sch e m1
+
+/-- an `ite` that returns although an operand is not a node (`g = ±1`) has not touched the manager -/
+theorem C15_ite_nonmember (m : MddMgr) (g u v : Int)
+    (hn : ¬ (m.tbl.Mem g ∧ m.tbl.Mem u ∧ m.tbl.Mem v)) (r : Except Err Int) (m' : MddMgr)
+    (hr : mIte g u v m = (r, m')) : m' = m :=
+  mIte_nonmember m g u v hn r m' hr
 
 /-- in every reachable state, equal functions ⇔ equal references -/
 theorem C15_reachable_canonical (dv : List MVar) (m : MddMgr) (ext : Nat → Nat) (h : MReach dv m ext)
@@ -644,6 +736,41 @@ theorem C15_gc_never_stuck (m : MddMgr) (ext : Nat → Nat) (hc : MInvCore m) (h
       MInvCore m1 ∧ MRefExact m1 ext ∧ WorkOK m1 work' ∧
       m1.tbl.succ.size + 1 = m.tbl.succ.size :=
   mGcRun_progress m ext hc hx work hw u hu
+
+/-- EVERY strategy: let `σ` choose the element `unused.pop()` returns (any function of the worklist
+and the manager that picks an element of the worklist).  In every reachable state, for any roots
+that are nodes (either sign; or none), `collect_garbage` run with `σ` returns normally within one
+iteration per node, is one of the runs `MGcAny`, has the guarantees `GcOK`, leaves a reachable
+state's invariants, and — without roots — keeps exactly the nodes reachable from a held node. -/
+theorem C15_gc_every_strategy (σ : List Int → MddMgr → Int) (hσ : ∀ w m, w ≠ [] → σ w m ∈ w)
+    (dv : List MVar) (m : MddMgr) (ext : Nat → Nat) (h : MReach dv m ext)
+    (roots : Option (List Int)) (hro : ∀ rs, roots = some rs → ∀ r, r ∈ rs → m.tbl.Mem r) :
+    ∃ m', mCollectGarbageBy σ roots m = (.ok (), m') ∧ MGcAny roots m m' ∧
+      GcOK m ext roots.isNone m' ∧
+      (roots = none → ∀ x n, m.tbl.node? x = some n →
+        (m'.tbl.node? x = some n ↔ HeldReach m.tbl ext x)) := by
+  obtain ⟨hi, hx, _⟩ := h.inv
+  obtain ⟨m', hr, hany, G⟩ := mCollectGarbageBy_total σ hσ m ext hi hx roots
+    (gcRootList_mem m h.refKeys roots hro)
+  refine ⟨m', hr, hany, G, ?_⟩
+  intro hn x n hx'
+  subst hn
+  exact mGcAny_exactly_reachable m ext hi hx m' hany x n hx'
+
+/-- freed numbers: after `collect_garbage` (any order) the number of every removed node is in
+`_free`, what was in `_free` is still there, `_max` is unchanged; and `_allocate` hands out a
+number — a freed one in particular — only as `_max + 1` when `_free` is empty, or by popping it
+from `_free` -/
+theorem C15_gc_freed_numbers (m : MddMgr) (ext : Nat → Nat) (h : MInv m) (hx : MRefExact m ext)
+    (roots : Option (List Int)) (m' : MddMgr) (R : MGcAny roots m m') :
+    (∀ x, x ∈ m.free → x ∈ m'.free) ∧
+    (∀ x n, m.tbl.node? x = some n → m'.tbl.node? x = none → x ∈ m'.free) ∧
+    m'.max = m.max ∧
+    (∀ (mm : MddMgr) u mm', mAllocate mm = (.ok u, mm') →
+      (mm.free = [] ∧ u = mm.max + 1 ∧ mm'.max = mm.max + 1 ∧ mm'.free = []) ∨
+      (u ∈ mm.free ∧ mm'.free = mm.free.erase u ∧ mm'.max = mm.max)) := by
+  obtain ⟨a, b, c⟩ := mGcAny_free m ext h hx roots m' R
+  exact ⟨a, b, c, fun mm u mm' hr => mAllocate_source mm u mm' hr⟩
 
 /-- every run, in any order, gives what `collect_garbage` promises; and without roots exactly the
 nodes reachable from a held node remain -/
@@ -724,7 +851,7 @@ theorem r2 : MReach dv s2.2 (fun _ => 0) :=
 theorem r3 : MReach dv s3.2 (fun _ => 0) :=
   MReach.foa 0 [-1, 2, 1] (-4) _ r2 (by decide) e3
 theorem r4 : MReach dv s4.2 (fun _ => 0) :=
-  MReach.ite 3 (-4) (-2) (-5) _ r3 (by decide) (by decide) (by decide) e4
+  MReach.ite 3 (-4) (-2) (-5) _ r3 e4
 theorem r5 : MReach dv s5.2 (mExtInc (fun _ => 0) 3) :=
   MReach.incref 3 _ r4 (by decide) e5
 theorem r6 : MReach dv s6.2 (mExtInc (fun _ => 0) 3) :=
@@ -740,6 +867,34 @@ theorem hpos (m : MddMgr) (hv : m.tbl.vars = dv) : ∀ i, i < m.tbl.nvars → 0 
   rw [hv] at hi ⊢
   have : i = 0 ∨ i = 1 := by simp [dv] at hi; omega
   rcases this with rfl | rfl <;> decide
+
+/-! a larger collection, checked by kernel evaluation (`decide +kernel`), and a pop that is NOT the
+least element of `_free` -/
+
+/-- what is observed of a collection: outcome, the remaining node numbers, `_free`, `_ref` -/
+def gcObs (r : Except Err Unit × MddMgr) : Except Err Unit × List Nat × List Nat × List (Nat × Nat) :=
+  (r.1, r.2.tbl.succ.keys, r.2.free, r.2.ref.toList)
+
+-- `s3`: nodes 2 = (1, [1, -1]), 3 = (0, [2, 1, -1]), 4 = (0, [1, -2, -1]); hold node 3
+def k1 := mIncref 3 s3.2
+def k2 := mCollectGarbage none k1.2
+def k3 := mCollectGarbage (some [-4]) k1.2
+-- nothing held: everything is freed, `_free = {2, 3, 4}`
+def g3 := mCollectGarbage none s3.2
+-- the next `find_or_add` when `_free.pop()` returns 4 (the real `set.pop()` need not return the least)
+def f4 := mFindOrAdd 1 [1, -1] { g3.2 with sched := [4] }
+-- a recorded pop that is not in `_free`: only then the model reports a mismatch
+def f7 := mFindOrAdd 1 [1, -1] { g3.2 with sched := [7] }
+
+theorem ek1 : k1 = (.ok (), k1.2) := pair_eta (by decide +kernel)
+theorem ek2 : k2 = (.ok (), k2.2) := pair_eta (by decide +kernel)
+theorem eg3 : g3 = (.ok (), g3.2) := pair_eta (by decide +kernel)
+theorem ef4 : f4 = (.ok 4, f4.2) := pair_eta (by decide +kernel)
+theorem rk1 : MReach dv k1.2 (mExtInc (fun _ => 0) 3) := MReach.incref 3 _ r3 (by decide) ek1
+theorem rg3 : MReach dv g3.2 (fun _ => 0) := MReach.gc none _ r3 eg3
+/-- a reachable state in which node number 4 was re-used although 2 and 3 were free -/
+theorem rf4 : MReach dv { f4.2 with sched := [] } (fun _ => 0) :=
+  MReach.foaS [4] 1 [1, -1] 4 _ rg3 (by decide +kernel) ef4
 
 end C15Ex
 
@@ -902,5 +1057,36 @@ example : ∃ out mb' r m1 m2, bddToMdd dv none mb = (.ok out, mb') ∧
     C15_convert_incref_collect ex mb rinv ks good.sched dv dfull 5 held5
   exact ⟨out, mb', r, m1, m2, h1, h2, h3, h4,
     fun α hα => by have := h7 α hα; simpa [flip] using this, out2, mb'', r2, h9, h10⟩
+
+open C15Ex in
+/-- kernel-checked collections on a manager with three nodes, one of them held: the full
+collection and the one from the root `-4` free node 4 only (its number enters `_free`, the count
+of its successor 2 drops to 1); with nothing held all three nodes go and `_free = [2, 3, 4]` -/
+example : gcObs k2 = (.ok (), [2, 3], [4], [(1, 4), (2, 1), (3, 1)]) ∧
+    gcObs k3 = (.ok (), [2, 3], [4], [(1, 4), (2, 1), (3, 1)]) ∧
+    gcObs g3 = (.ok (), [], [2, 3, 4], [(1, 0)]) := by
+  refine ⟨?_, ?_, ?_⟩ <;> decide +kernel
+
+open C15Ex in
+/-- the reachable set is not restricted to least-element pops: with `_free = [2, 3, 4]` and the
+recorded pop 4 the model's `find_or_add` takes number 4 (the state is `MReach`, `rf4`); the
+mismatch report needs a recorded pop outside `_free` and changes nothing -/
+example : g3.2.free = [2, 3, 4] ∧ f4.1 = .ok 4 ∧ f4.2.free = [2, 3] ∧
+    f4.2.tbl.node? 4 = some ⟨1, [1, -1]⟩ ∧ MReach dv { f4.2 with sched := [] } (fun _ => 0) ∧
+    f7.1 = .error .sched ∧ f7.2.free = [2, 3, 4] := by
+  refine ⟨?_, ?_, ?_, ?_, rf4, ?_, ?_⟩ <;> decide +kernel
+
+open C15Ex in
+/-- the every-strategy theorem applies (here: always pop the LAST element of the worklist) -/
+example : ∃ m', mCollectGarbageBy (fun w _ => w.getLast?.getD 0) none k1.2 = (.ok (), m') ∧
+    ∀ x n, k1.2.tbl.node? x = some n →
+      (m'.tbl.node? x = some n ↔ HeldReach k1.2.tbl (mExtInc (fun _ => 0) 3) x) := by
+  obtain ⟨m', hr, _, _, hex⟩ := C15_gc_every_strategy (fun w _ => w.getLast?.getD 0)
+    (fun w _ hw => by
+      cases h : w.getLast? with
+      | none => rw [List.getLast?_eq_none_iff] at h; exact absurd h hw
+      | some a => simpa using List.mem_of_getLast? h)
+    dv k1.2 _ rk1 none (fun rs hrs => by cases hrs)
+  exact ⟨m', hr, hex rfl⟩
 
 end DD
